@@ -57,6 +57,12 @@ fn real_main(args: &[String]) -> i32 {
                 seed ^= seed << 17;
                 seed
             };
+            if kind == "bytes" {
+                // the repository's own decode vectors are part of every seeded corpus
+                for (i, v) in vcore::selftest::repo_vectors().iter().enumerate() {
+                    let _ = std::fs::write(dir.join(format!("repo-vector-{:03}", i)), v);
+                }
+            }
             for i in 0..n {
                 let len = (next() % (max_tape as u64 + 1)) as usize;
                 let tape: Vec<u8> = (0..len).map(|_| (next() >> 24) as u8).collect();
